@@ -160,7 +160,7 @@ SIZES_NICE = [64, 128, 256, 512, 1024, 1536, 2048, 3072]
 def sched_workload(flows, n_max, exact=True, unique_offsets=False, static=False, sizes=None):
     """workloads aimed at schedulers: bursts, idle gaps, arrivals exactly at transmission ends (nice sizes/rates)"""
     flows = list(flows)
-    sizes = sizes or st.sampled_from(SIZES_NICE)
+    sizes = st.sampled_from(SIZES_NICE) if sizes is None else sizes
     if static:
         item = st.tuples(st.just(0), st.sampled_from(flows), sizes, st.just(None), st.just(0))
         return st.lists(item, min_size=4, max_size=n_max).map(lambda xs: [list(x) for x in xs])
